@@ -586,3 +586,224 @@ Qed.
 
 Theorem reachable_ok : forall s, reachable step sys_init s -> sys_ok s.
 Proof. apply invariant_reachable; [exact sys_init_ok|]. intros; eapply step_ok; eauto. Qed.
+
+(* ================= C18, etcd backend ================= *)
+
+Lemma holds_spec : forall s c, holds s c = true <-> c_pc c = Held /\ live (s_kv s) (c_lease c).
+Proof.
+  intros s c. unfold holds, lease_live. rewrite andb_true_iff. split; intros [A B]; split; auto.
+  - destruct (c_pc c); simpl in A; try discriminate; auto.
+  - rewrite A. reflexivity.
+Qed.
+
+(* mutual exclusion: in every reachable state (any number of contenders, any
+   schedule, including lease revocations and expiries) at most one contender is
+   in its critical section with a live lease *)
+Theorem etcd_mutex : forall s i j a b,
+  reachable step sys_init s ->
+  nth_error (s_cs s) i = Some a -> nth_error (s_cs s) j = Some b ->
+  holds s a = true -> holds s b = true -> i = j.
+Proof.
+  intros s i j a b Hr Ha Hb Pa Pb.
+  apply reachable_ok in Hr. destruct Hr as (Hkv & Hnd & Hrange & Hcs).
+  apply holds_spec in Pa. apply holds_spec in Pb. destruct Pa as [Pa La]. destruct Pb as [Pb Lb].
+  destruct (Hcs a (nth_error_In _ _ Ha)) as [Ca _]. destruct (Hcs b (nth_error_In _ _ Hb)) as [Cb _].
+  destruct (Ca La) as [A1 A2]. destruct (Cb Lb) as [B1 B2].
+  destruct A1 as [xa [Hxa [Eka Eca]]]; [right; right; auto|].
+  destruct B1 as [xb [Hxb [Ekb Ecb]]]; [right; right; auto|].
+  destruct (Z.eq_dec (c_lease a) (c_lease b)) as [E|Hne].
+  - eapply NoDup_map_nth; eauto.
+  - exfalso.
+    assert (c_rev a < ek_create xb) by (apply A2; [right; auto|auto|congruence]).
+    assert (c_rev b < ek_create xa) by (apply B2; [right; auto|auto|congruence]).
+    lia.
+Qed.
+
+Theorem etcd_holders_le_one : forall s, reachable step sys_init s -> (holders s <= 1)%nat.
+Proof.
+  intros s Hr. unfold holders. apply countb_le_one. intros. eapply etcd_mutex; eauto.
+Qed.
+
+(* with leases that do not expire: at most one contender in its critical section *)
+Corollary etcd_mutex_no_expiry : forall s i j a b,
+  reachable step sys_init s ->
+  (forall c, In c (s_cs s) -> c_pc c = Held -> live (s_kv s) (c_lease c)) ->
+  nth_error (s_cs s) i = Some a -> nth_error (s_cs s) j = Some b ->
+  c_pc a = Held -> c_pc b = Held -> i = j.
+Proof.
+  intros s i j a b Hr Hlive Ha Hb Pa Pb.
+  eapply etcd_mutex; eauto; apply holds_spec; split; auto; apply Hlive; auto; eapply nth_error_In; eauto.
+Qed.
+
+(* a try-lock step taken while another contender holds fails in that step: the
+   caller is never made to wait (it goes to the clean-up delete, whose only
+   outcome is the ErrLocked failure) *)
+Theorem etcd_trylock_fails : forall s s' i j c h,
+  reachable step sys_init s ->
+  nth_error (s_cs s) j = Some h -> holds s h = true -> i <> j ->
+  nth_error (s_cs s) i = Some c -> c_pc c = Called OpTry ->
+  step s (LAcq i) = Some s' ->
+  exists c', nth_error (s_cs s') i = Some c' /\
+             (c_pc c' = TryDel \/ c_pc c' = Failed ErrLeaseNotFound).
+Proof.
+  intros s s' i j c h Hr Hj Hh Hij Hi Hpc Hstep.
+  apply reachable_ok in Hr. destruct Hr as (Hkv & Hnd & Hrange & Hcs).
+  apply holds_spec in Hh. destruct Hh as [Ph Lh].
+  destruct (Hcs h (nth_error_In _ _ Hj)) as [Ch _]. destruct (Ch Lh) as [H1 H2].
+  destruct H1 as [xh [Hxh [Ekh Ech]]]; [right; right; auto|].
+  assert (Hlne : c_lease c <> c_lease h).
+  { intro E. apply Hij. eapply NoDup_map_nth; eauto. }
+  assert (Hlen : (i < length (s_cs s))%nat) by (apply nth_error_Some; congruence).
+  simpl in Hstep. rewrite Hi, Hpc in Hstep.
+  unfold step_acq, e_put_if_absent, all_keys in Hstep.
+  destruct (e_get Z.eqb (s_kv s) (c_lease c)) as [x0|] eqn:Hg.
+  - apply (e_get_some Z.eqb zeqb_eq) in Hg. destruct Hg as [Hx0 Ek0].
+    rewrite (first_create_all (s_kv s)) in Hstep.
+    assert (Hcr : e_create_rev Z.eqb (s_kv s) (c_lease c) = ek_create x0).
+    { unfold e_create_rev. rewrite (e_get_in Z.eqb zeqb_eq (s_kv s) (c_lease c) x0); auto.
+      destruct Hkv as (_ & _ & K2 & _); auto. }
+    rewrite Hcr in Hstep.
+    destruct (min_create (e_kvs (s_kv s))) as [m|] eqn:Hm.
+    + destruct (min_create_spec _ _ Hm) as [Hmin Hle].
+      assert (ek_create m < ek_create x0).
+      { specialize (Hle xh Hxh). assert (c_rev h < ek_create x0) by (apply H2; [right; auto|auto|congruence]). lia. }
+      destruct (Z.eqb (ek_create m) (ek_create x0)) eqn:Em; [apply Z.eqb_eq in Em; lia|].
+      unfold with_c in Hstep. inversion Hstep; subst s'; simpl.
+      eexists. split; [apply nth_error_upd_same; auto|]. left. reflexivity.
+    + apply min_create_none in Hm. rewrite Hm in Hx0. destruct Hx0.
+  - destruct (e_put Z.eqb (s_kv s) (c_lease c) tt (c_lease c)) as [kv'|] eqn:Hp.
+    + destruct (Hrange c (nth_error_In _ _ Hi)) as [Hpos _].
+      destruct (put_new_ok _ _ _ Hkv Hpos Hg Hp) as (Hkv' & Hext & Hk' & Hr' & Hl').
+      rewrite (first_create_all kv') in Hstep.
+      destruct (min_create (e_kvs kv')) as [m|] eqn:Hm.
+      * destruct (min_create_spec _ _ Hm) as [Hmin Hle].
+        assert (ek_create m < e_rev kv').
+        { assert (In xh (e_kvs kv')) by (rewrite Hk'; apply in_or_app; auto).
+          specialize (Hle xh H). destruct Hkv as (_ & K1 & _). apply K1 in Hxh. lia. }
+        destruct (Z.eqb (ek_create m) (e_rev kv')) eqn:Em; [apply Z.eqb_eq in Em; lia|].
+        unfold with_c in Hstep. inversion Hstep; subst s'; simpl.
+        eexists. split; [apply nth_error_upd_same; auto|]. left. reflexivity.
+      * apply min_create_none in Hm. rewrite Hk' in Hm. destruct (e_kvs (s_kv s)); discriminate.
+    + unfold with_c in Hstep. inversion Hstep; subst s'; simpl.
+      eexists. split; [apply nth_error_upd_same; auto|]. right. reflexivity.
+Qed.
+
+(* ... and the clean-up step is always enabled and ends in the ErrLocked failure *)
+Theorem etcd_trydel_fails : forall s i c,
+  nth_error (s_cs s) i = Some c -> c_pc c = TryDel ->
+  exists s' c', step s (LDelOwn i) = Some s' /\ nth_error (s_cs s') i = Some c' /\ c_pc c' = Failed ErrLocked.
+Proof.
+  intros s i c Hi Hpc. simpl. rewrite Hi, Hpc. unfold with_c.
+  assert (Hlen : (i < length (s_cs s))%nat) by (apply nth_error_Some; congruence).
+  eexists. eexists. split; [reflexivity|]. simpl. split; [apply nth_error_upd_same; auto|reflexivity].
+Qed.
+
+(* a waiter with nobody ahead of it acquires in its next two own steps
+   (the waitDeletes poll and the Get of its own key) *)
+Definition nobody_ahead (s : sys) (c : cont) : Prop :=
+  forall x, In x (e_kvs (s_kv s)) -> c_rev c <= ek_create x.
+
+Theorem etcd_wait_acquires : forall s i c,
+  reachable step sys_init s ->
+  nth_error (s_cs s) i = Some c -> c_pc c = Waiting -> live (s_kv s) (c_lease c) ->
+  nobody_ahead s c ->
+  exists s1 s2 c2, step s (LPoll i) = Some s1 /\ step s1 (LVerify i) = Some s2 /\
+                   nth_error (s_cs s2) i = Some c2 /\ c_pc c2 = Held /\ s_kv s2 = s_kv s.
+Proof.
+  intros s i c Hr Hi Hpc Hl Hna.
+  apply reachable_ok in Hr. destruct Hr as (Hkv & Hnd & Hrange & Hcs).
+  destruct (Hcs c (nth_error_In _ _ Hi)) as [Cc _]. destruct (Cc Hl) as [H1 _].
+  destruct H1 as [x0 [Hx0 [Ek Ec]]]; [left; auto|].
+  assert (Hlen : (i < length (s_cs s))%nat) by (apply nth_error_Some; congruence).
+  assert (Hnone : e_last_create_upto (s_kv s) all_keys (c_rev c - 1) = None).
+  { apply last_create_upto_none. intros x Hx _. specialize (Hna x Hx). lia. }
+  simpl. rewrite Hi, Hpc, Hnone. unfold with_c.
+  eexists. eexists. eexists. split; [reflexivity|]. simpl.
+  rewrite nth_error_upd_same by auto. simpl.
+  rewrite (e_get_in Z.eqb zeqb_eq (s_kv s) (c_lease c) x0); auto;
+    [|destruct Hkv as (_ & _ & K2 & _); auto].
+  unfold with_c. split; [reflexivity|]. simpl.
+  split; [apply nth_error_upd_same; rewrite length_upd; auto|]. split; reflexivity.
+Qed.
+
+(* a waiter whose deadline passes fails with the deadline error after its
+   clean-up delete; both steps are enabled in every state *)
+Theorem etcd_wait_timeout : forall s i c,
+  nth_error (s_cs s) i = Some c -> c_pc c = Waiting ->
+  exists s1 s2 c2, step s (LTimeout i) = Some s1 /\ step s1 (LDelOwn i) = Some s2 /\
+                   nth_error (s_cs s2) i = Some c2 /\ c_pc c2 = Failed ErrDeadline.
+Proof.
+  intros s i c Hi Hpc.
+  assert (Hlen : (i < length (s_cs s))%nat) by (apply nth_error_Some; congruence).
+  simpl. rewrite Hi, Hpc. unfold with_c.
+  eexists. eexists. eexists. split; [reflexivity|]. simpl.
+  rewrite nth_error_upd_same by auto. simpl. unfold with_c.
+  split; [reflexivity|]. simpl.
+  split; [apply nth_error_upd_same; rewrite length_upd; auto|reflexivity].
+Qed.
+
+(* ================= C19, etcd backend ================= *)
+
+(* the helper steps that deliver the loss to holder i: one iteration of the
+   session keepalive loop (if it has not yet seen the loss), then the watcher *)
+Definition notify_steps (i : nat) (c : cont) : list label :=
+  if c_sdone c then [LWatch i] else [LKeepAlive i; LWatch i].
+
+Theorem etcd_notify : forall s i c,
+  reachable step sys_init s ->
+  nth_error (s_cs s) i = Some c -> c_pc c = Held -> dead (s_kv s) (c_lease c) -> c_ctx c = CtxLive ->
+  exists s' c', run step s (notify_steps i c) = Some s' /\
+                nth_error (s_cs s') i = Some c' /\ c_ctx c' = CtxSessionDone /\ c_pc c' = Held.
+Proof.
+  intros s i c Hr Hi Hpc Hd Hctx.
+  apply reachable_ok in Hr. destruct Hr as (Hkv & Hnd & Hrange & Hcs).
+  destruct (Hcs c (nth_error_In _ _ Hi)) as [_ (W1 & W2 & W3 & W4)].
+  destruct (W1 Hpc) as [Hlk [[Hw _]|[_ Hx]]]; [|congruence].
+  assert (Hlen : (i < length (s_cs s))%nat) by (apply nth_error_Some; congruence).
+  unfold notify_steps. destruct (c_sdone c) eqn:Hsd.
+  - simpl. rewrite Hi, Hw, Hsd, Hlk. unfold with_c.
+    eexists. eexists. split; [reflexivity|]. simpl.
+    split; [apply nth_error_upd_same; auto|]. split; auto.
+  - simpl. rewrite Hi, Hsd.
+    destruct (e_keepalive (s_kv s) (c_lease c)) as [alive kv'] eqn:Hka.
+    destruct (keepalive_ok _ _ _ _ Hkv Hka) as (_ & _ & _ & _ & Hb).
+    rewrite Hd in Hb. subst alive. unfold with_c. simpl.
+    rewrite nth_error_upd_same by auto. simpl. rewrite Hw, Hlk. unfold with_c.
+    eexists. eexists. split; [reflexivity|]. simpl.
+    split; [apply nth_error_upd_same; rewrite length_upd; auto|]. split; auto.
+Qed.
+
+(* a context cancelled with ErrLockSessionDone means the lease is really gone *)
+Theorem etcd_ctx_sound : forall s i c,
+  reachable step sys_init s ->
+  nth_error (s_cs s) i = Some c -> c_ctx c = CtxSessionDone -> dead (s_kv s) (c_lease c).
+Proof.
+  intros s i c Hr Hi Hctx.
+  apply reachable_ok in Hr. destruct Hr as (Hkv & Hnd & Hrange & Hcs).
+  destruct (Hcs c (nth_error_In _ _ Hi)) as [_ (W1 & W2 & W3 & W4)]. auto.
+Qed.
+
+(* overlap bound: if two contenders are in their critical sections with live
+   contexts and j's lease is live, then i's lease is gone and i's notification is
+   still in flight (its watcher has not yet run); by [etcd_notify] it is
+   delivered by at most two helper steps of i, which are enabled *)
+Theorem etcd_overlap_bound : forall s i j a b,
+  reachable step sys_init s ->
+  nth_error (s_cs s) i = Some a -> nth_error (s_cs s) j = Some b -> i <> j ->
+  c_pc a = Held -> c_ctx a = CtxLive -> holds s b = true ->
+  dead (s_kv s) (c_lease a) /\ c_w a = WWatching /\
+  (exists s' a', run step s (notify_steps i a) = Some s' /\
+                 nth_error (s_cs s') i = Some a' /\ c_ctx a' = CtxSessionDone).
+Proof.
+  intros s i j a b Hr Ha Hb Hij Pa Ca Hb'.
+  assert (Hd : dead (s_kv s) (c_lease a)).
+  { destruct (e_lease_live (s_kv s) (c_lease a)) eqn:L; auto.
+    exfalso. apply Hij. eapply etcd_mutex; eauto. apply holds_spec. auto. }
+  split; auto.
+  pose proof (reachable_ok _ Hr) as (Hkv & Hnd & Hrange & Hcs).
+  destruct (Hcs a (nth_error_In _ _ Ha)) as [_ (W1 & _)].
+  destruct (W1 Pa) as [_ [[Hw _]|[_ Hx]]]; [|congruence].
+  split; auto.
+  destruct (etcd_notify s i a Hr Ha Pa Hd Ca) as (s' & a' & H1 & H2 & H3 & _).
+  exists s', a'. auto.
+Qed.
